@@ -26,7 +26,8 @@ func init() {
 type Case struct {
 	Doc    string `json:"yaml"`
 	Class  string `json:"class,omitempty"`
-	Expect *doc   `json:"expect,omitempty"` // what the statement says about this document
+	Expect *doc   `json:"expect,omitempty"`            // what the statement says about this document
+	File   string `json:"file_name_pattern,omitempty"` // name the document was stored under (%d = sequence number)
 }
 
 // addrSpec: one spelling of a listen address and what the statement says about it.
@@ -230,8 +231,12 @@ func sameAddr(got net.UDPAddr, want net.UDPAddr) bool {
 
 var tmpSeq atomic.Int64
 
+// nameTmpl is the file name documents are stored under: what a configuration file is called
+// is not among the reasons the statement gives for rejecting it.
+var nameTmpl = "c18-%d.yml"
+
 func load(text string) (c *config.Config, err error, pan string) {
-	f := filepath.Join(srv.Scratch(), fmt.Sprintf("c18-%d.yml", tmpSeq.Add(1)))
+	f := filepath.Join(srv.Scratch(), fmt.Sprintf(nameTmpl, tmpSeq.Add(1)))
 	os.WriteFile(f, []byte(text), 0o644)
 	defer os.Remove(f)
 	defer func() {
@@ -246,7 +251,7 @@ func load(text string) (c *config.Config, err error, pan string) {
 func eval(r *ev.Run, d doc, class string) {
 	c, err, pan := load(d.text)
 	dd := d
-	cs := Case{d.text, class, &dd}
+	cs := Case{d.text, class, &dd, nameTmpl}
 	if pan != "" {
 		r.Violate("C18/panic", "config.Load panicked: "+pan, cs)
 		r.Eval(class + "/panic")
@@ -420,6 +425,15 @@ func run(r *ev.Run) {
 		6: {plugins: []pluginItem{items[5], items[2]}, listen: []net.UDPAddr{{IP: net.ParseIP("2001:db8::1"), Port: 547}}}}, skipLis: map[int]bool{}}
 	both.text = "server6:\n  listen: '[2001:db8::1]'\n" + pluginsYAML([]pluginItem{items[5], items[2]}) + "server4:\n  listen: 192.0.2.1\n" + pluginsYAML([]pluginItem{items[1], items[0]})
 	eval(r, both, "both-sections")
+	// the same documents under other file names (extensions viper knows for other formats,
+	// unknown extensions, none, upper case, a blank in the name)
+	for _, n := range []string{"config-%d.yaml", "coredhcp-%d.conf", "dhcpd-%d.cfg", "config-%d.yml.new", "config-%d", "config-%d.json", "config-%d.toml", "config-%d.ini", "CONFIG-%d.YML", "core dhcp %d.yml", ".hidden-%d"} {
+		nameTmpl = n
+		eval(r, both, "both-sections/file-name")
+		eval(r, doc{text: "server4:\n  listen: 192.0.2.1\n" + pluginsYAML(items[:3]), expect: map[int]*section{4: {plugins: items[:3], listen: []net.UDPAddr{{IP: net.ParseIP("192.0.2.1"), Port: 67}}}, 6: nil}, skipLis: map[int]bool{}}, "server4-only/file-name")
+		eval(r, doc{text: "server4:\n  plugins:\n    - a: 1\n      b: 2\n", reject: true}, "two-key-item/file-name")
+	}
+	nameTmpl = "c18-%d.yml"
 	noListen := doc{expect: map[int]*section{4: {plugins: one}}, skipLis: map[int]bool{4: true}}
 	noListen.text = "server4:\n" + pluginsYAML(one)
 	eval(r, noListen, "listen-absent/v4")
@@ -509,6 +523,9 @@ func replay(r *ev.Run, raw json.RawMessage) {
 	if err := json.Unmarshal(raw, &c); err != nil {
 		r.Violate("C18/replay/bad-file", err.Error(), nil)
 		return
+	}
+	if c.File != "" {
+		nameTmpl = c.File
 	}
 	cfg, err, pan := load(c.Doc)
 	fmt.Printf("  load: err=%v panic=%q\n", err, pan)
